@@ -104,8 +104,8 @@ def check(pid, tier):
         proof_broken = "; ".join(errs)[:1500]
         cov.update({"obligations": max(1, len(names)), "discharged": 0, "theorems": names, "build_errors": errs[:20]})
     else:
-        aud, alog = build.audit(pid)
-        forb = build.grep_forbidden(pid)
+        aud, alog = build.audit(pid, P.thm_modules)
+        forb = build.grep_forbidden(pid, P.thm_modules)
         bad = [a for a in aud if not a["ok"]]
         cov.update({"obligations": len(aud), "discharged": len(aud) - len(bad) if not forb else 0,
                     "theorems": aud, "forbidden_tokens": forb})
@@ -163,7 +163,7 @@ def check(pid, tier):
             k = fam + ":" + props.klass(ia)
             hist[k] = hist.get(k, 0) + 1
             if P.nontrivial(op, ia or ""):
-                distinct.add(op)
+                distinct.add((ci if case[0].startswith("img ") else -1, op))
             if len(samples) < 6 and (nops % 97 == 1):
                 samples.append({"op": op[:300], "impl": (ia or "")[:300], "model": (ma or "")[:300], "spec": spec[:300]})
             j = P.judge(op, ia or "none", ma or "none", spec)
@@ -177,7 +177,7 @@ def check(pid, tier):
                 disagreements.append((ci, oi, j))
     cov["correspondence"] = {
         "evaluations": nops, "distinct_nontrivial": len(distinct), "corpus_cases": ncorpus,
-        "rule": "cases from the seeded generators %s plus corpus; non-trivial = the implementation returned a non-empty, non-error answer; distinct = distinct operation lines" % list(gen_stats),
+        "rule": "cases from the seeded generators %s plus corpus; non-trivial = the implementation returned a non-empty, non-error answer; distinct = distinct (image, operation line) pairs" % list(gen_stats),
         "generated": gen_stats, "outcomes": hist, "disagreements": len(disagreements),
     }
     cov["evaluations"] = nops
